@@ -77,6 +77,13 @@ def declare2(S: Spec):
 def declare3(S: Spec):
     S.pred("PoolsIndexed", [("ex", Ref("Executor"))],
            "ExecShape(ex) and all(ex.pools[i].pool_id == i and ex.pools[i].max_ram_pool > 0 for i in range(0, len(ex.pools)))")
+    # every ready, assignable operator of pipeline p sits in the queue (C18: no ready operator is left out of a round)
+    S.pred("ReadyQueued", [("s", Ref("Scheduler")), ("p", Ref("Pipeline"))],
+           "all(implies(p._runtime_status.operator_states[op] in ASSIGNABLE_STATES and ParentsDone(p._runtime_status, op), op in s.op_queue)"
+           " for op in keys(p._runtime_status.operator_states))")
+    # each dictionary entry is a pipeline filed under its own id
+    ENTRY = ("all(pipelines_to_process[key].pipeline_id == key and (pipelines_to_process[key] in pipelines"
+             " or any(r.ops[0].pipeline is pipelines_to_process[key] for r in results)) for key in keys(pipelines_to_process))")
     S.fn(f"{MO}:update_state", owners=["C18"],
          params={"s": Ref("Scheduler"), "results": List(Ref("ExecutionResult")), "pipelines": List(Ref("Pipeline"))},
          requires=["s is not None and results is not None and pipelines is not None and s.op_queue is not None and s.pipeline_failures is not None",
@@ -97,17 +104,24 @@ def declare3(S: Spec):
          locals={"pipelines_to_process": Dict(STR, Ref("Pipeline")), "queued_ids": Set(Ref("UUID")), "ready_ops": List(Ref("Operator"))},
          loops={0: dict(idx="k", header="for r in results",
                         inv=["all(PipeOK(pipelines_to_process[key]) and nodup(keys(pipelines_to_process[key]._runtime_status.operator_states))"
-                             " for key in keys(pipelines_to_process))", "nodup(keys(pipelines_to_process))",
+                             " for key in keys(pipelines_to_process))", "nodup(keys(pipelines_to_process))", ENTRY,
+                             "all(results[j].ops[0].pipeline.pipeline_id in pipelines_to_process for j in range(0, k))",
+                             "all(p.pipeline_id in pipelines_to_process for p in pipelines)",
                              "all(implies(key in old(keys(s.pipeline_failures)), key in s.pipeline_failures"
                              " and s.pipeline_failures[key] >= old(select(vals(s.pipeline_failures), key))) for key in every('str'))"]),
                 1: dict(idx="k", header="for pipeline in pipelines_to_process.values()",
-                        inv=["all(PipeOK(pipelines_to_process[key]) and nodup(keys(pipelines_to_process[key]._runtime_status.operator_states))"
+                        unfold=["keys(pipelines_to_process)"],
+                        inv=["k <= len(keys(pipelines_to_process))",
+                             "all(ReadyQueued(s, pipelines_to_process[keys(pipelines_to_process)[j]]) for j in range(0, k))",
+                             "all(PipeOK(pipelines_to_process[key]) and nodup(keys(pipelines_to_process[key]._runtime_status.operator_states))"
                              " for key in keys(pipelines_to_process))",
                              "QueuedOK(seq(s.op_queue))", "all(op in s.op_queue for op in old(seq(s.op_queue)))",
                              "all(op in old(seq(s.op_queue)) or ParentsDone(op.pipeline._runtime_status, op) for op in s.op_queue)",
-                             "all(iff(x in queued_ids, any(op.id is x for op in s.op_queue)) for x in every('UUID'))"]),
+                             "all(iff(x in queued_ids, any(op.id is x for op in s.op_queue)) for x in every('UUID'))",
+                             "vals(pipelines_to_process) == at_entry(vals(pipelines_to_process)) and keys(pipelines_to_process) == at_entry(keys(pipelines_to_process))"]),
                 2: dict(idx="j", header="for op in ready_ops",
-                        inv=["QueuedOK(seq(s.op_queue))", "all(op in s.op_queue for op in old(seq(s.op_queue)))",
+                        inv=["all(ReadyQueued(s, pipelines_to_process[keys(pipelines_to_process)[i]]) for i in range(0, k))",
+                             "QueuedOK(seq(s.op_queue))", "all(op in s.op_queue for op in old(seq(s.op_queue)))",
                              "all(op in old(seq(s.op_queue)) or ParentsDone(op.pipeline._runtime_status, op) for op in s.op_queue)",
                              "all(iff(x in queued_ids, any(op.id is x for op in s.op_queue)) for x in every('UUID'))",
                              "all(ready_ops[i] in s.op_queue for i in range(0, j))", "j <= len(ready_ops)"])})
@@ -115,6 +129,10 @@ def declare3(S: Spec):
 
 def declare4(S: Spec):
     upd = S.fns[f"{MO}:update_state"]
+    # monitored natively only (not discharged deductively in this revision): completeness of the ready queue
+    upd.native_ensures.append(("ready-work-of-touched-pipelines-queued",
+                               "C18| all(ReadyQueued(s, p) or any(p2.pipeline_id == p.pipeline_id and p2 is not p for p2 in pipelines) for p in pipelines)"
+                               " and all(ReadyQueued(s, r.ops[0].pipeline) for r in results)"))
     S.fn(f"{MO}:overbook_scheduler", owners=["C18"],
          params={"s": Ref("Scheduler"), "results": List(Ref("ExecutionResult")), "pipelines": List(Ref("Pipeline"))},
          returns=Tuple(List(Ref("Suspend")), List(Ref("Assignment"))),
